@@ -8,6 +8,7 @@ Model:  Peg/Op.lean   `Op.run`  = peg_rule, opcode by opcode, threading the muta
         Peg/Entry.lean peg/match, find, find-all, replace, replace-all as loops over one match attempt
 -/
 import JanetModel.Peg.Lemmas
+import JanetModel.Peg.Bounds
 import JanetModel.Peg.Entry
 
 namespace JanetModel.Props.C12
@@ -65,6 +66,71 @@ theorem entry_points_op_eq_den {ρ : Type} (E : Env) (hE : E.lenprefixLeak = fal
     pegReplace (opMatcher E fetch main fuel guard) E.text subst one start = pegReplace (denMatcher E fetch main fuel guard) E.text subst one start := by
   rw [opMatcher_eq_denMatcher E hE]
   exact ⟨rfl, rfl, rfl, rfl⟩
+
+/-! ### never reads outside the text
+
+Every text access of the model (`memcmp` of a literal / back-match, the byte tested by range / set, the bytes of an integer
+reader, the bytes copied by capture / number) goes through `Env.byte` / `Env.slice`, which return `Err.oob` unless the
+indices lie inside the CURRENT window `[0, text_end)` (narrowed by sub / til / split) and inside the text. -/
+
+/-- A rule entered at `pos ≤ text_end ≤ |text|` never performs an out-of-window read, and when it matches it ends in
+    `[pos, text_end]` (so that every rule it calls is entered inside the window again). -/
+theorem den_never_reads_outside {ρ : Type} (E : Env) (fetch : ρ → Option (Instr ρ)) (fuel : Nat) (r : ρ) (s : St) (pos : Nat)
+    (hte : s.textEnd ≤ E.text.length) (hpos : pos ≤ s.textEnd) :
+    Den.run E fetch fuel r s pos ≠ .error .oob ∧
+    ∀ p d, Den.run E fetch fuel r s pos = .ok (some (p, d)) → pos ≤ p ∧ p ≤ s.textEnd := by
+  have h := run_good E fetch fuel r s pos hte hpos
+  constructor
+  · intro he; rw [he] at h; exact h rfl
+  · intro p d he; rw [he] at h; exact h
+
+/-- **never_reads_outside** for the operational model of `peg_rule` (all opcodes, sub-windows included). -/
+theorem never_reads_outside {ρ : Type} (E : Env) (hE : E.lenprefixLeak = false) (fetch : ρ → Option (Instr ρ)) (fuel : Nat)
+    (r : ρ) (s : St) (pos : Nat) (hte : s.textEnd ≤ E.text.length) (hpos : pos ≤ s.textEnd) :
+    Op.run E fetch fuel r s pos ≠ .error .oob ∧
+    ∀ p s', Op.run E fetch fuel r s pos = .ok (some p, s') → pos ≤ p ∧ p ≤ s.textEnd := by
+  have hd := den_never_reads_outside E fetch fuel r s pos hte hpos
+  have ho := op_eq_den E hE fetch fuel r s pos
+  revert ho hd
+  cases Den.run E fetch fuel r s pos with
+  | error e =>
+    intro hd ho
+    simp only at ho
+    refine ⟨?_, ?_⟩
+    · rw [ho]; intro h; injection h with h; exact hd.1 (by rw [h])
+    · intro p s' h; rw [ho] at h; cases h
+  | ok v =>
+    cases v with
+    | none =>
+      intro hd ho
+      obtain ⟨s1, h1, _⟩ := ho
+      refine ⟨(by rw [h1]; intro h; cases h), ?_⟩
+      intro p s' h; rw [h1] at h; cases h
+    | some pd =>
+      obtain ⟨p0, d⟩ := pd
+      intro hd ho
+      simp only at ho
+      refine ⟨(by rw [ho]; intro h; cases h), ?_⟩
+      intro p s' h
+      rw [ho] at h
+      injection h with h
+      injection h with h1 h2
+      injection h1 with h1
+      rw [← h1]
+      exact hd.2 p0 d rfl
+
+/-- for the entry points: a match attempt from any start offset inside the text never reads outside it -/
+theorem match_attempt_never_reads_outside {ρ : Type} (E : Env) (hE : E.lenprefixLeak = false) (fetch : ρ → Option (Instr ρ))
+    (main : ρ) (fuel guard start : Nat) (hstart : start ≤ E.text.length) :
+    opMatcher E fetch main fuel guard start ≠ .error .oob := by
+  have h := (never_reads_outside E hE fetch fuel main (initSt E guard) start (Nat.le_refl _) hstart).1
+  simp only [opMatcher]
+  revert h
+  cases Op.run E fetch fuel main (initSt E guard) start with
+  | error e => intro h; simpa using h
+  | ok v =>
+    obtain ⟨res, s'⟩ := v
+    cases res <;> intro _ h <;> cases h
 
 /-! ### find / find-all agree with repeated matching -/
 
